@@ -46,6 +46,9 @@ where
 
     #[inline]
     fn process(&mut self, el: StreamElement<A::In>) -> Self::Output {
+        #[cfg(feature = "verif")]
+        let now = crate::verif::now();
+        #[cfg(not(feature = "verif"))]
         let now = Instant::now();
         match el {
             StreamElement::Item(item) | StreamElement::Timestamped(item, _) => {
